@@ -176,6 +176,11 @@ def gen_valhex():
         ("length in characters, then every pattern, unless STORE_ONLY",
          "if(!(options&LYPLG_TYPE_STORE_ONLY)){if(type_str->length){ret=lyplg_type_validate_range(LY_TYPE_STRING,type_str->length,ly_utf8len(value,value_len),value,value_len,err);"
          "LY_CHECK_GOTO(ret,cleanup);}ret=lyplg_type_validate_patterns(type_str->patterns,value,value_len,err);LY_CHECK_GOTO(ret,cleanup);}cleanup:")], ordered=True)
+    # repair switch (finding F423): a value with an embedded NUL byte is refused right after the hints check
+    nul_shape = "LY_CHECK_GOTO(ret,cleanup);if(value_len&&memchr(value,'\\0',value_len)){ret=ly_err_new(err,LY_EVALID,LYVE_DATA,NULL,NULL,\"Invalidcharacter0x00.\");gotocleanup;}"
+    nul_refused = nul_shape in b
+    if "memchr" in b and not nul_refused:
+        missing.append("lyplg_type_store_hex_string: NUL check of an unknown shape")
     for forbidden in ("string_check_chars", "ly_checkutf8", "ly_getutf8", "toupper"):
         if forbidden in b:
             missing.append("lyplg_type_store_hex_string: calls %s (the model has no such step)" % forbidden)
@@ -238,7 +243,11 @@ def gen_valhex():
             "/-- the typedefs of ietf-yang-types@2013-07-15 that `plugins_hex_string[]` (hex_string.c) registers, each a direct restriction of",
             "    `string`: name, compiled length parts, pattern array (argument as UTF-8 bytes, `invert-match`) -/",
             "def hexTypedefs : List (String × List (Int × Int) × List (List UInt8 × Bool)) := [",
-            ",\n".join(rows) + "]", "", "end LyModel.Generated", ""]
+            ",\n".join(rows) + "]", "",
+            "/-- hex_string.c: a value with an embedded NUL byte is refused after the hints check (false on the pinned tree: `strndup` truncates,",
+            "    finding F423) -/",
+            "def hexNulRefused : Bool := %s" % ("true" if nul_refused else "false"),
+            "", "end LyModel.Generated", ""]
     return "\n".join(out), missing
 
 
